@@ -828,10 +828,19 @@ class _ThreadSafeIterator(Iterator[_ValueT]):
   def __init__(self, iterable: Iterable[_ValueT]):
     self._iterator = iter(iterable)
     self._lock = threading.Lock()
+    self._exhausted = False
 
   def __next__(self):
     with self._lock:
-      return next(self._iterator)
+      try:
+        return next(self._iterator)
+      except StopIteration:
+        # Every worker sharing the iterator reaches its end: the return values
+        # are handed to the first of them only, not once per worker.
+        if self._exhausted:
+          raise StopIteration() from None
+        self._exhausted = True
+        raise
 
   def __iter__(self):
     return self
